@@ -6,6 +6,9 @@ FLAVOURS = {
     # sanitizer flavour: clang ASan + a reduced UBSan set (see DESIGN 2.5), asserts on
     'asan': dict(cxx='clang++', flags=['-std=gnu++17', '-O1', '-g', '-march=haswell', ASAN_SAN, '-fno-sanitize-recover=all',
                                        '-fno-omit-frame-pointer'], libs=['-lrapidcheck']),
+    # the same with the SSE (westmere) kernels: the 16-byte variants of every .inc.h routine under ASan
+    'wasan': dict(cxx='clang++', flags=['-std=gnu++17', '-O1', '-g', '-march=westmere', ASAN_SAN, '-fno-sanitize-recover=all',
+                                        '-fno-omit-frame-pointer'], libs=['-lrapidcheck']),
     # production flavour: what users ship (no sanitizer => the library's direct over-read / in-page fast paths are live)
     'prod': dict(cxx='g++', flags=['-std=gnu++17', '-O2', '-g', '-march=haswell'], libs=['-lrapidcheck']),
     'wsm': dict(cxx='g++', flags=['-std=gnu++17', '-O2', '-g', '-march=westmere'], libs=['-lrapidcheck']),
@@ -16,6 +19,9 @@ FLAVOURS = {
                  libs=['-lrapidcheck', '-lpthread']),
     'fuzz': dict(cxx='clang++', flags=['-std=gnu++17', '-O1', '-g', '-march=haswell', ASAN_SAN.replace('address', 'fuzzer,address'),
                                        '-fno-sanitize-recover=all', '-DVF_FUZZ'], libs=['-lrapidcheck']),
+    # dynamic dispatch (ifunc resolvers pick the AVX2 clones on this host) under g++ ASan
+    'dynasan': dict(cxx='g++', flags=['-std=gnu++17', '-O1', '-g', '-march=westmere', '-DSONIC_DYNAMIC_DISPATCH', '-fsanitize=address',
+                                      '-fno-omit-frame-pointer'], libs=['-lrapidcheck']),
     'gasan': dict(cxx='g++', flags=['-std=gnu++17', '-O1', '-g', '-march=haswell', '-fsanitize=address'], libs=['-lrapidcheck']),
 }
 
@@ -54,6 +60,8 @@ PROPS['C01'] = dict(
     units=[
         U(c01, 'rc', 3000, 60000, wq=4, wt=6, label='c01-rc'),
         U(c01, 'prng', 60000, 3000000, wq=4, wt=6, label='c01-prng'),
+        U(B('c01_parse', 'c01_parse.cpp', 'wasan'), 'prng', 30000, 1500000, wq=2, wt=3, label='c01-sse-asan'),
+        U(B('c01_parse', 'c01_parse.cpp', 'dynasan'), 'prng', 30000, 1500000, wq=2, wt=3, label='c01-dynamic-asan'),
         F(fz01, 20, 600, wq=4, wt=4, label='fz_parse', dict='fuzz/json.dict', seeds='fuzz/seeds/json'),
     ],
     harness_alias={'fz_parse': 'c01_parse'},
@@ -77,6 +85,9 @@ PROPS['C03'] = dict(
     units=[
         U(c03, 'rc', 1500, 40000, wq=4, wt=6, label='c03-rc'),
         U(c03, 'prng', 12000, 600000, wq=6, wt=8, label='c03-prng'),
+        U(B('c03_value', 'c03_value.cpp', 'prod'), 'prng', 15000, 800000, wq=2, wt=4, label='c03-prod'),
+        U(B('c03_value', 'c03_value.cpp', 'wasan'), 'prng', 5000, 250000, wq=2, wt=3, label='c03-sse-asan'),
+        U(B('c03_value', 'c03_value.cpp', 'dynasan'), 'prng', 5000, 250000, wq=2, wt=3, label='c03-dynamic-asan'),
         F(fz03, 15, 600, wq=2, wt=2, label='fz_value', dict='fuzz/json.dict', seeds='fuzz/seeds/json'),
     ],
     harness_alias={'fz_value': 'c03_value'},
@@ -128,6 +139,7 @@ PROPS['C05'] = dict(
     title='String literals decode exactly per RFC 8259 escapes, wherever they sit',
     units=[
         U(c05, 'prng', 250000, 6000000, wq=4, wt=8, label='c05-prng'),
+        U(B('c05_strings', 'c05_strings.cpp', 'wasan'), 'prng', 150000, 4000000, wq=3, wt=4, label='c05-sse-asan'),
         U(c05, 'rc', 4000, 100000, wq=2, wt=2, label='c05-rc'),
         U(c05, 'prng', 768, 768 * 24, wq=2, wt=6, label='c05-exhaustive-u', args=['--exhaustive-u']),
         F(fz05, 15, 600, wq=2, wt=2, label='fz_string', field='body', dict='fuzz/string.dict', max_len=300),
@@ -137,13 +149,16 @@ PROPS['C05'] = dict(
     rule='cases: literal = filler(0..69 bytes) + feature + filler, so the feature sits at every offset of the 16/32-byte grid; '
          'features: the 8 short escapes, \\uXXXX (all 65536 values enumerated completely by the exhaustive-u unit in each of '
          '3 contexts, every run), surrogate-region singles and ordered pairs, every raw byte, every byte after a backslash, '
-         'malformed \\u, unpaired/misordered surrogates, runs of consecutive escapes; contexts: root value, array element, '
+         'malformed \\u, unpaired/misordered surrogates, runs of consecutive escapes; fillers plain ASCII, ASCII mixed with '
+         'bytes >= 0x80, or any unescaped-legal byte; one case in three has a valid escape before the feature (post-escape '
+         'decoder path); AVX2 and SSE (-march=westmere) sanitizer builds; contexts: root value, array element, '
          'object key+value, on-demand key, UpdateLazy key; plus libFuzzer over literal bodies. Oracle: refjson.unescape '
          '(accept/reject, decoded bytes, error class when the literal holds one fault kind). Non-trivial: invalid literal, '
          'or >= 16 bytes with an escape, or a control/high byte.',
     min_evaluations=dict(quick=200000, thorough=3000000),
     required_classes=['feature:short-escape', 'feature:u-pair', 'feature:high-surrogate-unpaired', 'feature:low-surrogate-first',
-                      'feature:raw-control', 'feature:escape-run', 'ctx:key', 'ctx:ondemand-key', 'ctx:updatelazy-key'],
+                      'feature:raw-control', 'feature:escape-run', 'ctx:key', 'ctx:ondemand-key', 'ctx:updatelazy-key',
+                      'escape-before-feature+high-bytes'],
 )
 
 c04 = B('c04_numbers', 'c04_numbers.cpp', 'asan')
@@ -161,14 +176,16 @@ PROPS['C04'] = dict(
     rule='cases: JSON number spellings from six strata - integers of 1..22 digits and the 2^63/2^64/10^19 boundaries; '
          'mantissa(1..19 digits) x every decimal exponent -348..347 (table rows rotated by case index; rows touched reported); '
          'exact midpoints between adjacent doubles (all binary exponents, subnormals) truncated to 17..770 digits and +-1 unit in '
-         'the last place; mantissas of 20..2000 digits followed by exponent/fraction/nothing; zeros in every spelling; '
+         'the last place, and the exact midpoint padded with zeros to 20..830 significant digits with a last non-zero digit (or '
+         'the digit string just below it; totals 790..812 dense); mantissas of 20..2000 digits followed by exponent/fraction/nothing; zeros in every spelling; '
          'overflow/underflow boundaries - each spelled scientific / integer-mantissa / positional with e|E and +, at the root, '
          'in an array, as an object value, at pad 0..40. Oracle: integer rule of the statement, else glibc strtod bits on the '
          'identical spelling, strtod==inf => kParseErrorInfinity. Non-trivial: more than 15 significant digits or not a plain '
          'integer. distinct = distinct pick sequences.',
     min_evaluations=dict(quick=500000, thorough=10000000),
     required_classes=['class:integer-boundary', 'class:mantissa-x-exp10', 'class:halfway', 'class:long-mantissa', 'class:zero',
-                      'class:range-boundary', 'halfway:exact', 'halfway:truncated+1ulp:subnormal'],
+                      'class:range-boundary', 'halfway:exact', 'halfway:truncated+1ulp:subnormal',
+                      'halfway:padded-tail+:digits799-801', 'halfway:padded-tail-:digits799-801'],
     assumptions=['an error confined to the low 64-bit word of a power-of-ten table row affects ~2^-64 of inputs and is outside '
                  'practical reach of search (DESIGN.md section 8)'],
 )
@@ -211,12 +228,14 @@ PROPS['C08'] = dict(
          'values, sharded over 4 workers, in both the sanitizer and the production build - exhaustive for that sub-domain in '
          'every run) plus Utoa_16 on 64 (hi,lo) pairs per block; (b) composition U64toa/I64toa on 10^k-1,10^k,10^k+1, 2^k-1,2^k,'
          '2^k+1, UINT64_MAX, INT64_MIN/MAX, every digit count 1..20, 8-digit groups equal to 0/1/99999999, random values, as '
-         'signed and unsigned, directly and through Serialize+Parse. Oracle: snprintf; length and 33-byte write bound (ASan '
+         'signed and unsigned, directly and through Serialize+Parse; (c) 1 case in 24: documents holding 1..300 integers (flat '
+         'array, arrays nested 1..6 deep, object values, [int,"text"] pairs; full-width / small / mixed magnitudes) serialised '
+         'into write buffers of capacity 0..1024, fresh or reused, so that buffer growth steps land on integers. Oracle: snprintf; length and 33-byte write bound (ASan '
          'heap block / canary); parse-back keeps kind and value. Non-trivial: >= 9 digits or negative. evaluations counts the '
          'kernel evaluations as oracle sub-evaluations.',
     min_evaluations=dict(quick=50000000, thorough=200000000),
     required_classes=['kernel-block', 'class:pow10-boundary', 'class:pow2-boundary', 'class:digit-count', 'class:group-pattern',
-                      'signed', 'unsigned'],
+                      'signed', 'unsigned', 'class:container', 'container:outgrows-initial-buffer'],
 )
 
 c09 = B('c09_quote', 'c09_quote.cpp', 'asan')
@@ -228,6 +247,7 @@ PROPS['C09'] = dict(
         U(c09p, 'prng', 700000, 40000000, wq=4, wt=8, label='c09-prod'),
         U(c09, 'prng', 250000, 10000000, wq=3, wt=4, label='c09-asan'),
         U(c09w, 'prng', 400000, 10000000, wq=2, wt=2, label='c09-westmere'),
+        U(B('c09_quote', 'c09_quote.cpp', 'wasan'), 'prng', 200000, 6000000, wq=2, wt=3, label='c09-sse-asan'),
         U(c09, 'rc', 4000, 100000, wq=1, wt=2, label='c09-rc'),
     ],
     rule='cases: byte strings of length 0..200 (+500, 1000), every length around the 16/32-byte block sizes; contents: one '
@@ -253,6 +273,7 @@ PROPS['C14'] = dict(
         U(c14p, 'prng', 600000, 40000000, wq=4, wt=8, label='c14-prod'),
         U(c14, 'prng', 200000, 8000000, wq=3, wt=4, label='c14-asan'),
         U(c14w, 'prng', 300000, 8000000, wq=2, wt=2, label='c14-westmere'),
+        U(B('c14_memcmp', 'c14_memcmp.cpp', 'wasan'), 'prng', 150000, 4000000, wq=2, wt=2, label='c14-sse-asan'),
         U(c14d, 'prng', 300000, 8000000, wq=2, wt=2, label='c14-dynamic'),
         U(c14, 'rc', 4000, 100000, wq=1, wt=2, label='c14-rc'),
     ],
@@ -276,6 +297,8 @@ PROPS['C10'] = dict(
     units=[
         U(c10, 'prng', 25000, 1500000, wq=5, wt=8, label='c10-asan'),
         U(c10p, 'prng', 60000, 4000000, wq=3, wt=4, label='c10-prod'),
+        U(B('c10_ondemand', 'c10_ondemand.cpp', 'wasan'), 'prng', 12000, 800000, wq=2, wt=3, label='c10-sse-asan'),
+        U(B('c10_ondemand', 'c10_ondemand.cpp', 'dynasan'), 'prng', 12000, 800000, wq=2, wt=3, label='c10-dynamic-asan'),
         U(c10, 'rc', 2000, 50000, wq=2, wt=2, label='c10-rc'),
         F(fz10, 15, 600, wq=2, wt=2, label='fz_ondemand', field='raw', dict='fuzz/json.dict', seeds='fuzz/seeds/ondemand'),
     ],
@@ -304,6 +327,9 @@ PROPS['C11'] = dict(
     units=[
         U(c11, 'prng', 50000, 3000000, wq=4, wt=8, label='c11-asan'),
         U(c11p, 'prng', 200000, 10000000, wq=3, wt=4, label='c11-prod'),
+        U(B('c11_ondemand_raw', 'c10_ondemand.cpp', 'wasan', defines=['-DVF_C11']), 'prng', 25000, 1500000, wq=2, wt=3, label='c11-sse-asan'),
+        U(B('c11_ondemand_raw', 'c10_ondemand.cpp', 'dyn', defines=['-DVF_C11']), 'prng', 100000, 5000000, wq=2, wt=3, label='c11-dynamic'),
+        U(B('c11_ondemand_raw', 'c10_ondemand.cpp', 'dynasan', defines=['-DVF_C11']), 'prng', 25000, 1500000, wq=2, wt=3, label='c11-dynamic-asan'),
         U(c11, 'rc', 3000, 50000, wq=1, wt=2, label='c11-rc'),
         F(fz11, 20, 900, wq=4, wt=6, label='fz_ondemand_raw', field='raw', dict='fuzz/json.dict', seeds='fuzz/seeds/ondemand'),
     ],
@@ -329,6 +355,7 @@ PROPS['C06'] = dict(
     units=[
         U(c06, 'prng', 20000, 1200000, wq=5, wt=8, label='c06-asan'),
         U(c06p, 'prng', 50000, 3000000, wq=2, wt=4, label='c06-prod'),
+        U(B('c06_serialize', 'c06_serialize.cpp', 'wasan'), 'prng', 8000, 500000, wq=2, wt=3, label='c06-sse-asan'),
         U(c06, 'rc', 1500, 40000, wq=2, wt=2, label='c06-rc'),
         F(fz06, 15, 600, wq=2, wt=2, label='fz_roundtrip', field='text', dict='fuzz/json.dict', seeds='fuzz/seeds/json'),
     ],
@@ -353,6 +380,7 @@ PROPS['C12'] = dict(
     units=[
         U(c12, 'rc', 1200, 60000, wq=6, wt=8, label='c12-rc'),
         U(c12, 'prng', 5000, 400000, wq=8, wt=8, label='c12-prng'),
+        U(B('c12_mutation', 'c12_mutation.cpp', 'prod'), 'prng', 8000, 500000, wq=2, wt=4, label='c12-prod'),
         F(B('fz_c12_ops', 'c12_mutation.cpp', 'fuzz'), 15, 600, wq=2, wt=3, label='fz_c12_ops', max_len=2048),
     ],
     rule='cases: operation sequences (1..210 steps, generated and shrunk as one value) over 3 documents, pool or freeing '
@@ -426,6 +454,7 @@ PROPS['C20'] = dict(
     units=[
         U(c20, 'rc', 3000, 80000, wq=3, wt=4, label='c20-rc'),
         U(c20, 'prng', 60000, 3000000, wq=6, wt=10, label='c20-prng'),
+        U(B('c20_lazy', 'c20_lazy.cpp', 'wasan'), 'prng', 25000, 1200000, wq=2, wt=3, label='c20-sse-asan'),
         F(fz20, 15, 600, wq=2, wt=2, label='fz_lazy', field='raw', dict='fuzz/json.dict', seeds='fuzz/seeds/lazy'),
     ],
     harness_alias={'fz_lazy': 'c20_lazy'},
@@ -449,6 +478,7 @@ PROPS['C18'] = dict(
     units=[
         U(c18, 'rc', 3000, 80000, wq=3, wt=4, label='c18-rc'),
         U(c18, 'prng', 50000, 3000000, wq=6, wt=10, label='c18-prng'),
+        U(B('c18_equality', 'c18_equality.cpp', 'prod'), 'prng', 60000, 3000000, wq=3, wt=4, label='c18-prod'),
         F(B('fz_c18_pairs', 'c18_equality.cpp', 'fuzz'), 15, 600, wq=2, wt=3, label='fz_c18_pairs', max_len=2048),
     ],
     rule='cases: a duplicate-free value v, a partner w that is v or v with exactly one change (leaf value / bit, 1 vs 1.0, sign, '
@@ -457,7 +487,8 @@ PROPS['C18'] = dict(
          'two (three) construction histories out of 10: parse compact, parse with heavy whitespace, mutation-API build, build '
          'with members permuted at every level, CopyFrom (source destroyed), parse of Dump, nodes that previously held another '
          'kind, extra capacity (Reserve + add/remove), lookup maps on every object, borrowed constant strings; pool and freeing '
-         'allocators incl. cross-type comparison. Oracle: (a==b) == model equality (objects as maps, numbers by kind and bits); '
+         'allocators incl. cross-type comparison; sanitizer build and production build (g++ -O2: the in-page fast paths of the key '
+         'comparison are live only there). Oracle: (a==b) == model equality (objects as maps, numbers by kind and bits); '
          'b==a agrees; != is the negation; a==a; deep copy and parse of the serialised text are equal; transitivity on an '
          'equal-by-construction triple. Non-trivial: a container with >= 2 children.',
     min_evaluations=dict(quick=100000, thorough=2000000),
